@@ -142,8 +142,22 @@ def reject_case(ctx, fn, lines, pend):
     not; in both directions the answer is compared with the model's `precheck` (Model/Rewire.v), on the same matrix"""
     import bct
     r = ctx.nprng
-    kind = str(r.choice(['disconnected', 'isolated-node', 'asymmetric-cell', 'asymmetric-weight', 'valid', 'valid']))
-    if kind == 'disconnected':                     # two blocks, symmetric
+    kinds = ['disconnected', 'isolated-node', 'asymmetric-cell', 'asymmetric-weight', 'valid', 'valid',
+             'small-disconnected', 'small-asymmetric', 'small-valid']
+    # every kind at least once per routine and run (round-robin first, random afterwards)
+    seen = ctx.__dict__.setdefault('_reject_rr', {})
+    k = seen.get(fn, 0); seen[fn] = k + 1
+    kind = kinds[k] if k < len(kinds) else str(r.choice(kinds))
+    if kind.startswith('small-'):                  # n = 2, 3: too small for any swap, the input checks still apply
+        small = {'small-disconnected': [[[0, 0], [0, 0]], [[0, 1, 0], [1, 0, 0], [0, 0, 0]], [[0, 0, 0], [0, 0, 0], [0, 0, 0]],
+                                        [[0, 0, 2], [0, 0, 0], [2, 0, 0]]],
+                 'small-asymmetric': [[[0, 1], [0, 0]], [[0, 1, 0], [0, 0, 1], [0, 0, 0]], [[0, 1, 1], [1, 0, 0], [0, 0, 0]],
+                                      [[0, 1, 1], [1, 0, 1], [1, 2, 0]]],
+                 'small-valid': [[[0, 1], [1, 0]], [[0, 1, 0], [1, 0, 1], [0, 1, 0]], [[0, 1, 1], [1, 0, 1], [1, 1, 0]],
+                                 [[0, 3, 0], [3, 0, 0.5], [0, 0.5, 0]]]}[kind]
+        A = np.array(small[int(r.randint(len(small)))], dtype=float); n = len(A)
+        kind = 'valid-small' if kind == 'small-valid' else kind
+    elif kind == 'disconnected':                     # two blocks, symmetric
         n = int(r.randint(4, 9)); h = n // 2
         A = np.zeros((n, n)); A[:h, :h] = r.rand(h, h) < 0.8; A[h:, h:] = r.rand(n - h, n - h) < 0.8
         A = np.triu(A, 1); A = A + A.T
